@@ -119,3 +119,43 @@ func VerifC15FileWrite() {
 	verifAssert("one-complete-line-per-entry", lines == n && clean)
 	verifReach("done")
 }
+
+// VerifC15ConcurrentWrites: two goroutines log entries of different profiles through
+// one FileSystem while opening the file takes time; each entry reaches the file as its
+// own record (no writer's line is replaced by another's through a shared buffer).
+//
+//verif:harness name=H15e-concurrent-writes tier=quick,thorough bounds="2 goroutines writing one entry each (different profiles, names of different lengths) through one FileSystem; opening the log file is a scheduling point; recycled pool buffers" reach=done maxpaths=20000 switches=0
+//verif:assume threads switch at the (slow) open of the log file and when finished; natively the log file is a FIFO so that both opens are pending together
+func VerifC15ConcurrentWrites() {
+	verifPoolMode(1)
+	path := verifSlowLogPath()
+	l := NewFileSystem(&FileSystemConfig{Logger: slogutil.NewDiscardLogger(), Path: path})
+	profiles := []string{"prof000a", "prof000b"}
+	fqdns := []string{"a.example.", "longer-name.example.org."}
+	var errs [2]error
+	for i := 0; i < 2; i++ {
+		e := verifEntry()
+		e.ProfileID = agd.ProfileID(profiles[i])
+		e.DomainFQDN = fqdns[i]
+		e.RequestType = uint16(1 + i)
+		go func() { errs[i] = l.Write(context.Background(), e) }()
+	}
+	verifRunAll()
+	verifReleaseLog(path, 2)
+	verifRunAll()
+	verifAssert("write-succeeds", errs[0] == nil && errs[1] == nil)
+	recs := verifLoggedRecords(path)
+	verifAssert("one-record-per-entry", len(recs) == 2)
+	var seen [2]int
+	for _, r := range recs {
+		for i := 0; i < 2; i++ {
+			if r.profile == profiles[i] && r.fqdn == fqdns[i] && r.qtype == uint16(1+i) {
+				seen[i]++
+			}
+		}
+	}
+	verifAssert("each-entry-logged-exactly-once-as-itself", seen[0] == 1 && seen[1] == 1)
+	lines, clean := verifLogLines(path)
+	verifAssert("one-complete-line-per-entry", lines == 2 && clean)
+	verifReach("done")
+}
